@@ -1,5 +1,18 @@
 import SlimModel.Scan
 import SlimProofs.Exact
+/-
+  SlimProofs.IterLemmas — `getGEPath` (trie/slimtrie_scan.go) on a well-formed Complete record
+  array, for an arbitrary start string.
+
+  * `geStep`, `geBranch`, `geLoop_leaf`, `geLoop_inner`, `geStep_stored`, `geBranch_go`,
+    `geBranch_absent`, `getGEPath_eq`, `geEpi`   equation lemmas (the model code is unfolded once)
+  * `Anc t a p b`      `p` = the nodes from `a` down to the parent of `b`; `RootPath`
+  * `leftMostPath_spec`   the path recorded by `leftMost(idx, &path)`
+  * `RAnc`, `GECut`, `GEHit`, `geLoop_exact`   the loop invariant: the one of
+    `Exact.searchLoop_exact` (three-way stored prefix, absent-label cut, descend, `i = l` shortcut)
+    plus the recorded path and `path[:rightPathLen]` = the ancestors of the right sibling `rID`
+  * `FirstGE`, `NoGE`, `GERes`, `fallback_spec`, `geEpi_spec`, `getGEPath_exact`
+-/
 
 namespace IterLemmas
 open Subtree SearchDescent RangeDropped Exact Scan
